@@ -10,7 +10,8 @@ wrappers in felix/rules (`PolicyChainName`, `ProfileChainName`,
 * The Go panic (`log.Panicf` when there is no room for even one hash
   character) is modelled as `none`. Since /repo d3812f3 the number of hash
   characters kept is `min(charsLeftForHash, len(hash))`, so there is no
-  out-of-range slice any more.
+  out-of-range slice any more; since 6a0784d the marker guard compares with
+  the length a shortened ID really has, `min(maxLength, len(prefix)+1+43)`.
 Core Lean only (linked into the driver executable).
 -/
 namespace CalicoVerif.C37
@@ -24,7 +25,9 @@ def us : Nat := 95
 def getLengthLimitedID (hash : Str → Str) (fixedPrefix suffix : Str) (maxLength : Int) : Option Str :=
   let suffix := if suffix.length = 0 then [us] else suffix
   let totalLen : Int := (fixedPrefix.length : Int) + (suffix.length : Int)
-  if totalLen > maxLength ∨ (totalLen = maxLength ∧ suffix.take 1 = [us]) then
+  -- 6a0784d: the length a shortened ID will really have (43 = EncodedLen(sha256.Size))
+  let shortenedLen : Int := min maxLength ((fixedPrefix.length : Int) + 1 + 43)
+  if totalLen > maxLength ∨ (totalLen = shortenedLen ∧ suffix.take 1 = [us]) then
     let h := hash suffix
     let charsLeftForHash : Int := maxLength - 1 - (fixedPrefix.length : Int)
     if charsLeftForHash ≤ 0 then none                         -- log.Panicf
@@ -37,7 +40,8 @@ def getLengthLimitedID (hash : Str → Str) (fixedPrefix suffix : Str) (maxLengt
 def shortens (fixedPrefix suffix : Str) (maxLength : Int) : Bool :=
   let suffix := if suffix.length = 0 then [us] else suffix
   let totalLen : Int := (fixedPrefix.length : Int) + (suffix.length : Int)
-  decide (totalLen > maxLength ∨ (totalLen = maxLength ∧ suffix.take 1 = [us]))
+  let shortenedLen : Int := min maxLength ((fixedPrefix.length : Int) + 1 + 43)
+  decide (totalLen > maxLength ∨ (totalLen = shortenedLen ∧ suffix.take 1 = [us]))
 
 /-- `PolicyChainName(prefix, polID, nft)` with `id = polID.ID()`;
 `maxIpt`/`maxNft` are `iptables.MaxChainNameLength` / `nftables.MaxChainNameLength`. -/
